@@ -161,3 +161,97 @@ func isNilOrSame(a, b value) bool {
 	defer func() { recover() }()
 	return a == b
 }
+
+// mapNamed returns a deep copy of v (of static type t) in which every value whose named type
+// is typeName (e.g. "github.com/gogpu/naga/ir.ExpressionHandle") is replaced by f(value).
+func (in *interp) mapNamed(t types.Type, v value, typeName string, f func(value) value, depth int) value {
+	if depth > 12 {
+		return v
+	}
+	if n, ok := t.(*types.Named); ok {
+		if n.Obj().Pkg() != nil && n.Obj().Pkg().Path()+"."+n.Obj().Name() == typeName {
+			return f(v)
+		}
+	}
+	if a, ok := t.(*types.Alias); ok {
+		return in.mapNamed(types.Unalias(a), v, typeName, f, depth)
+	}
+	switch u := t.Underlying().(type) {
+	case *types.Struct:
+		sv := v.(structure)
+		out := make(structure, len(sv))
+		for i := range sv {
+			out[i] = in.mapNamed(u.Field(i).Type(), sv[i], typeName, f, depth+1)
+		}
+		return out
+	case *types.Array:
+		av := v.(array)
+		out := make(array, len(av))
+		for i := range av {
+			out[i] = in.mapNamed(u.Elem(), av[i], typeName, f, depth+1)
+		}
+		return out
+	case *types.Slice:
+		sv := v.([]value)
+		if sv == nil {
+			return sv
+		}
+		out := make([]value, len(sv))
+		for i := range sv {
+			out[i] = in.mapNamed(u.Elem(), sv[i], typeName, f, depth+1)
+		}
+		return out
+	case *types.Pointer:
+		pv := v.(*value)
+		if pv == nil {
+			return pv
+		}
+		nv := in.mapNamed(u.Elem(), *pv, typeName, f, depth+1)
+		return &nv
+	case *types.Interface:
+		iv := v.(iface)
+		if iv.t == nil {
+			return iv
+		}
+		return iface{t: iv.t, v: in.mapNamed(iv.t, iv.v, typeName, f, depth+1)}
+	}
+	return v
+}
+
+// implementors lists the named, non-interface types of the interface's package that implement it.
+func (w *World) implementors(ifaceName string) []string {
+	i := len(ifaceName) - 1
+	for i >= 0 && ifaceName[i] != '.' {
+		i--
+	}
+	pkgPath, name := ifaceName[:i], ifaceName[i+1:]
+	sp := w.ssaPkgs[pkgPath]
+	if sp == nil {
+		sp = w.ssaPkgs[modPath+"/"+pkgPath]
+	}
+	if sp == nil {
+		return nil
+	}
+	obj := sp.Pkg.Scope().Lookup(name)
+	if obj == nil {
+		return nil
+	}
+	it, ok := obj.Type().Underlying().(*types.Interface)
+	if !ok {
+		return nil
+	}
+	var out []string
+	for _, n := range sp.Pkg.Scope().Names() {
+		tn, ok := sp.Pkg.Scope().Lookup(n).(*types.TypeName)
+		if !ok || tn.IsAlias() {
+			continue
+		}
+		if _, isIface := tn.Type().Underlying().(*types.Interface); isIface {
+			continue
+		}
+		if types.Implements(tn.Type(), it) || types.Implements(types.NewPointer(tn.Type()), it) {
+			out = append(out, tn.Name())
+		}
+	}
+	return out
+}
